@@ -1,10 +1,17 @@
 //! Engine `registry` (C19): the real pool factory, vault factory, incentive factory and swap router
 //! (plus pair / trio / vault / incentive / cw20 code) in one cw-multi-test `App`, over a fixed universe
-//! of 9 assets (5 native denoms incl. an `ibc/…` and two `factory/…` ones, 4 cw20 tokens).
+//! of 44 assets: a CORE of 9 (5 native denoms incl. an `ibc/…` and two `factory/…` ones, 4 cw20 tokens)
+//! that the pools, routes and the exhaustive point lookups use, and 35 more (29 native denoms of several
+//! shapes — plain, prefix / extension / case variant of a core denom, `ibc/…`, `factory/…`, with digits —
+//! and 6 cw20 tokens) so that the vault and incentive registries, which hold one entry per asset, grow
+//! beyond the factories' default and maximum page sizes (the page sizes are the constants regenerated
+//! from the contract sources into `lean/WW/Gen/Constants.lean`).
 //!
 //! Observation after every op: outcome + the full listing of every registry in the order the contract
-//! returns it, each entry followed by what the child contract itself reports. Assets are printed as
-//! universe indices, children as creation serials (never addresses).
+//! returns it (walked page by page to the end), each entry followed by what the child contract itself
+//! reports, + `kids=` the number of pair / trio / vault / incentive / cw20 contract instances that exist
+//! in the chain. Assets are printed as universe indices, children as instantiation serials per code
+//! (read from the chain's contract table, never addresses).
 use crate::common::*;
 use cosmwasm_std::testing::MockApi;
 use cosmwasm_std::{coin, to_json_binary, Addr, Api, Coin, Decimal, Empty, Uint128};
@@ -23,10 +30,95 @@ const FACTB: &str = "factory/migaloo1erul6xyq0gk6ws98ncj7lnq9l4jn4gnnu9we73gdz78
 const DENOMS: [&str; NN] = ["uwhale", "uusdc", IBC, FACTA, FACTB];
 /// decimals the generator registers for the native denoms in the scenarios that swap
 const NOMINAL: [u8; NN] = [6, 6, 8, 6, 18];
-const SYMBOLS: [&str; 4] = ["tka", "tkb", "dup", "dup"];
-const TOKEN_DEC: [u8; 4] = [6, 8, 18, 6];
-const MAX_LIMIT: usize = 30;
-const DEFAULT_LIMIT: usize = 10;
+const SYMBOLS: [&str; 4 + XT] = ["tka", "tkb", "dup", "dup", "tkc", "tkd", "tke", "tkf", "tkg", "dup"];
+const TOKEN_DEC: [u8; 4 + XT] = [6, 8, 18, 6, 6, 6, 8, 18, 6, 6];
+/// the extended universe (indices `N..NT`): natives first, then cw20 tokens. Used by the vault and the
+/// incentive registry (one entry per asset). Letters-only denoms give a valid vault LP symbol.
+const XN: usize = 29;
+const XT: usize = 6;
+const NT: usize = N + XN + XT;
+const XDENOMS: [&str; XN] = [
+    "uatom", "uosmo", "ujuno", "uluna", "ukuji", "uinj", "usei", "uakt", "ustars", "uscrt", "uhuahua", "ucmdx", "uxprt",
+    "uregen", "ubtsg", "uumee", "uiris", "uevmos", "ustrd", "uixo", "ubld", "uflix",
+    // prefix, extension and case variant of the core denom `uwhale`
+    "uwhal", "uwhalex", "uWHALE",
+    "ibc/0471F1C4E7AFD3F07702BEF6DC365268D64570F7C1FDC98EA6098DD6DE59817B",
+    "ibc/b3504e092456ba618cc28ac671a71fb08c6ca0fd0be7c8a5b5a3e2dd933cc9e4",
+    "factory/migaloo1erul6xyq0gk6ws98ncj7lnq9l4jn4gnnu9we73gdz78yyl2lr7qqrvcgup/uLP",
+    "peggy0xdAC17F958D2ee523a2206206994597C13D831ec7",
+];
+/// Address spellings: universe indices `NT..NU` name a cw20 token of the universe by its address in
+/// UPPER case. `addr_canonicalize` is case-insensitive (as for bech32), so the pool and the incentive
+/// factory compute the SAME storage key for it (the vault factory keys by the address string, so there it
+/// is a key of its own); no contract answers at that spelling and `addr_validate` refuses it. A registered
+/// key named through such a spelling must be found, refused on create and removed on remove like any other.
+const NA: usize = 2;
+const NU: usize = NT + NA;
+/// the first core cw20 (pools use it) and the last extra cw20
+const ALIAS_OF: [usize; NA] = [NN, NT - 1];
+/// the asset an index stands for (itself, or the token an address spelling names)
+fn base(i: usize) -> usize {
+    if (NT..NU).contains(&i) {
+        ALIAS_OF[i - NT]
+    } else {
+        i
+    }
+}
+/// every way of naming an asset list that the pool / incentive factories map to one key: every order of
+/// the assets, each asset under each of its spellings
+fn spellings(set: &[usize]) -> Vec<Vec<usize>> {
+    let orders: Vec<Vec<usize>> = match set.len() {
+        2 => vec![vec![set[0], set[1]], vec![set[1], set[0]]],
+        3 => perms3(set),
+        _ => vec![set.to_vec()],
+    };
+    let mut out: Vec<Vec<usize>> = vec![];
+    for o in orders {
+        let mut acc: Vec<Vec<usize>> = vec![vec![]];
+        for x in o {
+            let mut names = vec![x];
+            names.extend((0..NA).filter(|a| ALIAS_OF[*a] == x).map(|a| NT + a));
+            acc = acc.iter().flat_map(|pre| names.iter().map(move |n| [pre.clone(), vec![*n]].concat())).collect();
+        }
+        out.extend(acc);
+    }
+    out
+}
+/// registry kinds: 0 pairs, 1 trios, 2 vaults, 3 incentives
+const KIND: [&str; 4] = ["pairs", "trios", "vaults", "incs"];
+const KNAME: [&str; 4] = ["pair", "trio", "vault", "incentive"];
+
+fn is_native(i: usize) -> bool {
+    i < NN || (N..N + XN).contains(&i)
+}
+/// number of the cw20 token behind a non-native universe index
+fn token_no(i: usize) -> usize {
+    if i < N {
+        i - NN
+    } else {
+        4 + (i - N - XN)
+    }
+}
+/// `(DEFAULT_LIMIT, MAX_LIMIT)` of the factory serving a registry kind
+fn page_limits(kind: usize) -> (usize, usize) {
+    let (d, m) = match kind {
+        0 | 1 => ("POOL_FACTORY_DEFAULT_LIMIT", "POOL_FACTORY_MAX_LIMIT"),
+        2 => ("VAULT_FACTORY_DEFAULT_LIMIT", "VAULT_FACTORY_MAX_LIMIT"),
+        _ => ("INCENTIVE_FACTORY_DEFAULT_LIMIT", "INCENTIVE_FACTORY_MAX_LIMIT"),
+    };
+    (gen_const(d) as usize, gen_const(m) as usize)
+}
+fn size_bucket(n: usize, lim: (usize, usize)) -> &'static str {
+    if n == 0 {
+        "0"
+    } else if n <= lim.0 {
+        "le_default"
+    } else if n <= lim.1 {
+        "gt_default"
+    } else {
+        "gt_max"
+    }
+}
 
 fn hex(b: &[u8]) -> String {
     if b.is_empty() {
@@ -71,6 +163,17 @@ struct World {
     made_trios: BTreeMap<Vec<usize>, String>,
     made_vaults: BTreeSet<usize>,
     last_body: String,
+    /// code ids of the child contracts (pair, trio, vault, incentive, cw20)
+    codes: [u64; 5],
+    /// the chain's contract table as far as it has been read: (address, code id), instantiation order
+    insts: Vec<(String, u64)>,
+    /// `(DEFAULT_LIMIT, MAX_LIMIT)` per registry kind
+    lims: [(usize, usize); 4],
+    /// ghost: the child that the successful creation of a (then unregistered) key instantiated; forgotten
+    /// when the key is removed. Keys: sorted universe indices.
+    orig: [BTreeMap<Vec<usize>, String>; 4],
+    /// ghost: how many times a key was created while unregistered (= children that may exist for it)
+    born: [BTreeMap<Vec<usize>, usize>; 4],
 }
 
 fn fee(n: u64) -> Fee {
@@ -148,7 +251,8 @@ fn build_world() -> World {
     )));
     // the four cw20 tokens of the universe come first (contract0..3)
     let mut assets: Vec<AssetInfo> = DENOMS.iter().map(|d| AssetInfo::NativeToken { denom: (*d).into() }).collect();
-    for k in 0..4 {
+    let mut xtokens: Vec<AssetInfo> = vec![];
+    for k in 0..4 + XT {
         let a = app
             .instantiate_contract(
                 token_id,
@@ -168,7 +272,18 @@ fn build_world() -> World {
                 None,
             )
             .unwrap();
-        assets.push(AssetInfo::Token { contract_addr: a.to_string() });
+        if k < 4 {
+            assets.push(AssetInfo::Token { contract_addr: a.to_string() });
+        } else {
+            xtokens.push(AssetInfo::Token { contract_addr: a.to_string() });
+        }
+    }
+    assets.extend(XDENOMS.iter().map(|d| AssetInfo::NativeToken { denom: (*d).into() }));
+    assets.extend(xtokens);
+    assert_eq!(assets.len(), NT);
+    for a in 0..NA {
+        let AssetInfo::Token { contract_addr } = &assets[ALIAS_OF[a]] else { panic!("address spellings are for cw20 tokens") };
+        assets.push(AssetInfo::Token { contract_addr: contract_addr.to_uppercase() });
     }
     let fd = app
         .instantiate_contract(fd_id, owner.clone(), &fee_distributor_mock::msg::InstantiateMsg {}, &[], "fd", None)
@@ -234,8 +349,20 @@ fn build_world() -> World {
     let label: Vec<String> = assets
         .iter()
         .enumerate()
-        .map(|(i, a)| if i < NN { a.clone().get_label(&deps.as_ref()).unwrap() } else { SYMBOLS[i - NN].to_string() })
+        .map(|(i, a)| {
+            if is_native(i) {
+                a.clone().get_label(&deps.as_ref()).unwrap()
+            } else if i >= NT {
+                String::new() // no contract answers at this spelling
+            } else {
+                SYMBOLS[token_no(i)].to_string()
+            }
+        })
         .collect();
+    for a in 0..NA {
+        assert_eq!(raw[NT + a], raw[ALIAS_OF[a]], "addr_canonicalize is expected to be case-insensitive");
+        assert_ne!(refb[NT + a], refb[ALIAS_OF[a]]);
+    }
     World {
         app,
         owner,
@@ -261,11 +388,17 @@ fn build_world() -> World {
         made_trios: BTreeMap::new(),
         made_vaults: BTreeSet::new(),
         last_body: String::new(),
+        codes: [pair_id, trio_id, vault_id, inc_id, token_id],
+        insts: vec![],
+        lims: [page_limits(0), page_limits(1), page_limits(2), page_limits(3)],
+        orig: Default::default(),
+        born: Default::default(),
     }
 }
 
+/// the ghost's name of a key: the assets the indices stand for, sorted
 fn canon(xs: &[usize]) -> Vec<usize> {
-    let mut v = xs.to_vec();
+    let mut v: Vec<usize> = xs.iter().map(|i| base(*i)).collect();
     v.sort();
     v
 }
@@ -294,7 +427,7 @@ fn parse_hops(s: &str) -> Option<Vec<Hop>> {
             let mut it = h.split('-');
             let x = it.next()?.parse::<usize>().ok()?;
             let y = it.next()?.parse::<usize>().ok()?;
-            if it.next().is_some() || x >= N || y >= N {
+            if it.next().is_some() || x >= NU || y >= NU {
                 return None;
             }
             Some((x, y))
@@ -302,15 +435,15 @@ fn parse_hops(s: &str) -> Option<Vec<Hop>> {
         .collect()
 }
 fn idxs(ws: &[&str]) -> Option<Vec<usize>> {
-    ws.iter().map(|w| w.parse::<usize>().ok().filter(|i| *i < N)).collect()
+    ws.iter().map(|w| w.parse::<usize>().ok().filter(|i| *i < NU)).collect()
 }
 
 impl World {
     fn init_line(&self) -> String {
-        let mut s = format!("init registry n={N}");
-        for i in 0..N {
-            let kind = if i < NN { "n" } else { "c" };
-            let dec = if i < NN { 0 } else { TOKEN_DEC[i - NN] };
+        let mut s = format!("init registry n={NU}");
+        for i in 0..NU {
+            let kind = if is_native(i) { "n" } else if i >= NT { "a" } else { "c" };
+            let dec = if is_native(i) || i >= NT { 0 } else { TOKEN_DEC[token_no(i)] };
             s += &format!(" a{}={}:{}:{}:{}:{}", i, kind, hex(&self.raw[i]), hex(&self.refb[i]), hex(self.label[i].as_bytes()), dec);
         }
         s
@@ -414,15 +547,144 @@ impl World {
         }
         pages
     }
+    /// the whole listing: pages of the factory's maximum size, cursor = last entry, until an empty page
     fn full(&self, kind: usize) -> Vec<Vec<usize>> {
-        self.iterate_pages(kind, Some(30), 8).into_iter().flatten().collect()
+        self.iterate_pages(kind, Some(self.lims[kind].1 as u32), 64).into_iter().flatten().collect()
+    }
+    fn eff_limit(&self, kind: usize, l: Option<u32>) -> usize {
+        (l.map(|x| x as usize).unwrap_or(self.lims[kind].0)).min(self.lims[kind].1)
+    }
+
+    // ---------------------------------------------------------------- the chain's contract table
+    /// reads the contract table on from where the last read stopped (cw-multi-test numbers contracts
+    /// `contract<k>` in instantiation order; a reverted transaction leaves no contract behind) and gives
+    /// every new child its serial: its rank among the instances of its code
+    fn scan(&mut self) {
+        loop {
+            let addr = format!("contract{}", self.insts.len());
+            let code = match self.app.contract_data(&Addr::unchecked(addr.clone())) {
+                Ok(d) => d.code_id as u64,
+                Err(_) => break,
+            };
+            if code == self.codes[0] {
+                let s = self.pair_serial.len();
+                self.pair_serial.insert(addr.clone(), s);
+                // the LP token id is taken from the child's own report
+                if let Ok(c) = self.app.wrap().query_wasm_smart::<PairInfo>(&addr, &p::QueryMsg::Pair {}) {
+                    if let AssetInfo::Token { contract_addr } = c.liquidity_token {
+                        self.lp_ids.insert(contract_addr, format!("p{s}"));
+                    }
+                }
+            } else if code == self.codes[1] {
+                let s = self.trio_serial.len();
+                self.trio_serial.insert(addr.clone(), s);
+                if let Ok(c) = self.app.wrap().query_wasm_smart::<TrioInfo>(&addr, &t::QueryMsg::Trio {}) {
+                    if let AssetInfo::Token { contract_addr } = c.liquidity_token {
+                        self.lp_ids.insert(contract_addr, format!("t{s}"));
+                    }
+                }
+            } else if code == self.codes[2] {
+                let s = self.vault_serial.len();
+                self.vault_serial.insert(addr.clone(), s);
+            } else if code == self.codes[3] {
+                let s = self.inc_serial.len();
+                self.inc_serial.insert(addr.clone(), s);
+            }
+            self.insts.push((addr, code));
+        }
+    }
+    /// instances of the pair / trio / vault / incentive / cw20 code
+    fn counts(&mut self) -> [usize; 5] {
+        self.scan();
+        let mut c = [0usize; 5];
+        for (_, code) in &self.insts {
+            if let Some(k) = self.codes.iter().position(|x| x == code) {
+                c[k] += 1;
+            }
+        }
+        c
+    }
+    /// the asset set every instance of a child code reports about itself, counted per set
+    fn children_by_key(&mut self, kind: usize) -> BTreeMap<Vec<usize>, usize> {
+        self.scan();
+        let mut m: BTreeMap<Vec<usize>, usize> = BTreeMap::new();
+        for (addr, code) in &self.insts {
+            if *code != self.codes[kind] {
+                continue;
+            }
+            let key: Vec<usize> = match kind {
+                0 => self.app.wrap().query_wasm_smart::<PairInfo>(addr, &p::QueryMsg::Pair {}).map(|c| self.idx_list(&c.asset_infos)).unwrap_or(vec![99]),
+                1 => self.app.wrap().query_wasm_smart::<TrioInfo>(addr, &t::QueryMsg::Trio {}).map(|c| self.idx_list(&c.asset_infos)).unwrap_or(vec![99]),
+                2 => self.app.wrap().query_wasm_smart::<v::Config>(addr, &v::QueryMsg::Config {}).map(|c| self.idx_list(&[c.asset_info])).unwrap_or(vec![99]),
+                _ => self
+                    .app
+                    .wrap()
+                    .query_wasm_smart::<white_whale_std::pool_network::incentive::Config>(addr, &white_whale_std::pool_network::incentive::QueryMsg::Config {})
+                    .map(|c| self.idx_list(&[c.lp_asset]))
+                    .unwrap_or(vec![99]),
+            };
+            *m.entry(canon(&key)).or_insert(0) += 1;
+        }
+        m
+    }
+    /// the newest instance of a child code
+    fn newest(&self, kind: usize) -> Option<String> {
+        self.insts.iter().rev().find(|(_, c)| *c == self.codes[kind]).map(|(a, _)| a.clone())
+    }
+    fn live_has(&self, kind: usize, set: &Vec<usize>) -> bool {
+        match kind {
+            0 => self.live_pairs.contains(set),
+            1 => self.live_trios.contains(set),
+            2 => self.live_vaults.contains(&set[0]),
+            _ => self.live_incs.contains(&set[0]),
+        }
+    }
+    fn live_len(&self, kind: usize) -> usize {
+        match kind {
+            0 => self.live_pairs.len(),
+            1 => self.live_trios.len(),
+            2 => self.live_vaults.len(),
+            _ => self.live_incs.len(),
+        }
+    }
+    /// where in the listing a registered key sits, as statistics labels (listing in key order, as returned)
+    fn position_labels(&self, kind: usize, set: &Vec<usize>) -> Vec<&'static str> {
+        let full = self.full(kind);
+        let (d, m) = self.lims[kind];
+        let n = full.len();
+        let mut out = vec![];
+        if let Some(p) = full.iter().position(|e| canon(e) == *set) {
+            if p == 0 {
+                out.push("first");
+            }
+            if p + 1 == n {
+                out.push("last");
+            }
+            if p + 1 == d {
+                out.push("default_page_last");
+            }
+            if p == d {
+                out.push("default_page_next");
+            }
+            if p + 1 == m {
+                out.push("max_page_last");
+            }
+            if p == m {
+                out.push("max_page_next");
+            }
+            out.push(if p < d { "within_default_page" } else if p < m { "within_max_page" } else { "beyond_max_page" });
+        } else {
+            out.push("unlisted");
+        }
+        out
     }
 
     // ---------------------------------------------------------------- observation
     fn build_body(&mut self, mon: &mut Monitor) -> String {
         let mut out = String::new();
+        self.scan();
         // native decimals allow-list (point queries for every universe asset's string)
-        let decs: Vec<String> = (0..N)
+        let decs: Vec<String> = (0..NU)
             .map(|i| {
                 let denom = String::from_utf8(self.refb[i].clone()).unwrap();
                 match self.app.wrap().query_wasm_smart::<f::NativeTokenDecimalsResponse>(&self.fac, &f::QueryMsg::NativeTokenDecimals { denom }) {
@@ -436,8 +698,8 @@ impl World {
         // ---- pairs
         let mut pairs: Vec<PairInfo> = vec![];
         let mut cur = None;
-        for _ in 0..4 {
-            let pg = self.q_pairs(cur.clone(), Some(30));
+        for _ in 0..64 {
+            let pg = self.q_pairs(cur.clone(), Some(self.lims[0].1 as u32));
             if pg.is_empty() {
                 break;
             }
@@ -451,6 +713,11 @@ impl World {
             let ix = self.idx_list(&e.asset_infos);
             let fresh = seen.insert(canon(&ix));
             mon.check("C19", "at_most_one_pair", fresh, || format!("two pair entries for the unordered asset set {:?}", canon(&ix)));
+            if let Some(o) = self.orig[0].get(&canon(&ix)) {
+                mon.check("C19", "pair_entry_points_to_original_child", *o == e.contract_addr, || {
+                    format!("pair entry {:?} names child {} but the creation of this key instantiated {}", ix, e.contract_addr, o)
+                });
+            }
             registered_pair_addrs.insert(e.contract_addr.clone());
             let child: Result<PairInfo, _> = self.app.wrap().query_wasm_smart(&e.contract_addr, &p::QueryMsg::Pair {});
             let pool: Result<p::PoolResponse, _> = self.app.wrap().query_wasm_smart(&e.contract_addr, &p::QueryMsg::Pool {});
@@ -503,28 +770,33 @@ impl World {
             format!("listed pair sets {:?} != created-and-not-removed {:?}", seen, self.live_pairs)
         });
         out += &format!(" pairs={}", if strs.is_empty() { "-".into() } else { strs.join(";") });
-        // direct lookups agree with the listing, in both argument orders
+        // direct lookups agree with the listing, in both argument orders: every listed entry is what the
+        // keyed query returns; every unlisted pair of core assets is not found
+        for e in &pairs {
+            let ix = self.idx_list(&e.asset_infos);
+            if ix.iter().all(|i| *i < NT) {
+                for sp in spellings(&ix) {
+                    let (i, j) = (sp[0], sp[1]);
+                    let got: Result<PairInfo, _> = self.app.wrap().query_wasm_smart(&self.fac, &f::QueryMsg::Pair { asset_infos: self.arr2(i, j) });
+                    mon.check("C19", "pair_lookup_agrees_with_listing", got.as_ref().ok() == Some(e), || format!("Pair[{i},{j}] = {:?} but listing has {:?}", got, e));
+                }
+            }
+        }
         for i in 0..N {
             for j in 0..N {
-                if i == j {
+                if i == j || seen.contains(&canon(&[i, j])) {
                     continue;
                 }
                 let got: Result<PairInfo, _> = self.app.wrap().query_wasm_smart(&self.fac, &f::QueryMsg::Pair { asset_infos: self.arr2(i, j) });
-                let listed = pairs.iter().find(|e| canon(&self.idx_list(&e.asset_infos)) == canon(&[i, j]));
-                let ok = match (&got, listed) {
-                    (Ok(g), Some(l)) => g == l,
-                    (Err(_), None) => true,
-                    _ => false,
-                };
-                mon.check("C19", "pair_lookup_agrees_with_listing", ok, || format!("Pair[{i},{j}] = {:?} but listing has {:?}", got, listed));
+                mon.check("C19", "pair_lookup_agrees_with_listing", got.is_err(), || format!("Pair[{i},{j}] = {:?} but the listing has no such entry", got));
             }
         }
 
         // ---- trios
         let mut trios: Vec<TrioInfo> = vec![];
         let mut cur = None;
-        for _ in 0..6 {
-            let pg = self.q_trios(cur.clone(), Some(30));
+        for _ in 0..64 {
+            let pg = self.q_trios(cur.clone(), Some(self.lims[1].1 as u32));
             if pg.is_empty() {
                 break;
             }
@@ -537,6 +809,11 @@ impl World {
             let ix = self.idx_list(&e.asset_infos);
             let fresh = seen.insert(canon(&ix));
             mon.check("C19", "at_most_one_trio", fresh, || format!("two trio entries for the unordered asset set {:?}", canon(&ix)));
+            if let Some(o) = self.orig[1].get(&canon(&ix)) {
+                mon.check("C19", "trio_entry_points_to_original_child", *o == e.contract_addr, || {
+                    format!("trio entry {:?} names child {} but the creation of this key instantiated {}", ix, e.contract_addr, o)
+                });
+            }
             let child: Result<TrioInfo, _> = self.app.wrap().query_wasm_smart(&e.contract_addr, &t::QueryMsg::Trio {});
             let serial = self.trio_serial.get(&e.contract_addr).map(|s| s.to_string()).unwrap_or("?".into());
             let es = format!(
@@ -578,14 +855,11 @@ impl World {
             strs.push(format!("{es}|{cs}"));
             // lookups in all six orders return this very entry
             let c = &ix;
-            if c.iter().all(|i| *i < N) {
-                for pm in [[0, 1, 2], [0, 2, 1], [1, 0, 2], [1, 2, 0], [2, 0, 1], [2, 1, 0]] {
-                    let got: Result<TrioInfo, _> = self
-                        .app
-                        .wrap()
-                        .query_wasm_smart(&self.fac, &f::QueryMsg::Trio { asset_infos: self.arr3(c[pm[0]], c[pm[1]], c[pm[2]]) });
+            if c.iter().all(|i| *i < NT) {
+                for pm in spellings(c) {
+                    let got: Result<TrioInfo, _> = self.app.wrap().query_wasm_smart(&self.fac, &f::QueryMsg::Trio { asset_infos: self.arr3(pm[0], pm[1], pm[2]) });
                     mon.check("C19", "trio_lookup_agrees_with_listing", got.as_ref().ok() == Some(e), || {
-                        format!("Trio{:?} perm {:?} = {:?} but listing has {:?}", c, pm, got, e)
+                        format!("Trio{:?} named {:?} = {:?} but listing has {:?}", c, pm, got, e)
                     });
                 }
             }
@@ -607,17 +881,31 @@ impl World {
         out += &format!(" trios={}", if strs.is_empty() { "-".into() } else { strs.join(";") });
 
         // ---- vaults
-        let vaults = self.q_vaults(None, Some(30));
+        let mut vaults: Vec<vf::VaultInfo> = vec![];
+        let mut cur: Option<Vec<u8>> = None;
+        for _ in 0..64 {
+            let pg = self.q_vaults(cur.clone(), Some(self.lims[2].1 as u32));
+            if pg.is_empty() {
+                break;
+            }
+            cur = Some(pg.last().unwrap().asset_info_reference.clone());
+            vaults.extend(pg);
+        }
         let mut seen_v: BTreeSet<usize> = BTreeSet::new();
         let mut strs = vec![];
         for e in &vaults {
             let a = self.assets.iter().position(|x| *x == e.asset_info).unwrap_or(99);
             let fresh = seen_v.insert(a);
             mon.check("C19", "at_most_one_vault", fresh, || format!("two vault entries for asset {a}"));
+            if let Some(o) = self.orig[2].get(&vec![a]) {
+                mon.check("C19", "vault_entry_points_to_original_child", *o == e.vault, || {
+                    format!("vault entry {a} names child {} but the creation of this key instantiated {}", e.vault, o)
+                });
+            }
             let cfg: Result<v::Config, _> = self.app.wrap().query_wasm_smart(&e.vault, &v::QueryMsg::Config {});
             let serial = self.vault_serial.get(&e.vault).map(|s| s.to_string()).unwrap_or("?".into());
             let ok = match &cfg {
-                Ok(c) => c.asset_info == e.asset_info && a < N && e.asset_info_reference == self.refb[a],
+                Ok(c) => c.asset_info == e.asset_info && a < NT && e.asset_info_reference == self.refb[a],
                 Err(_) => false,
             };
             mon.check("C19", "vault_entry_eq_child_report", ok, || format!("vault entry {:?} != vault's own config {:?}", e, cfg));
@@ -627,7 +915,7 @@ impl World {
         mon.check("C19", "vaults_listing_matches_history", seen_v == self.live_vaults, || {
             format!("listed vaults {:?} != created-and-not-removed {:?}", seen_v, self.live_vaults)
         });
-        for i in 0..N {
+        for i in 0..NU {
             let got: Option<String> = self.app.wrap().query_wasm_smart(&self.vfac, &vf::QueryMsg::Vault { asset_info: self.assets[i].clone() }).unwrap();
             let listed = vaults.iter().find(|e| e.asset_info == self.assets[i]).map(|e| e.vault.clone());
             mon.check("C19", "vault_lookup_agrees_with_listing", got == listed, || format!("Vault[{i}] = {:?} but listing has {:?}", got, listed));
@@ -635,18 +923,39 @@ impl World {
         out += &format!(" vaults={}", if strs.is_empty() { "-".into() } else { strs.join(";") });
 
         // ---- incentives
-        let incs = self.q_incs(None, Some(30));
+        let mut incs: Vec<ifac::IncentivesContract> = vec![];
+        let mut cur: Option<AssetInfo> = None;
+        for _ in 0..64 {
+            let pg = self.q_incs(cur.clone(), Some(self.lims[3].1 as u32));
+            if pg.is_empty() {
+                break;
+            }
+            // the cursor is an asset: the one whose raw bytes the last entry carries
+            cur = match self.inc_asset(pg.last().unwrap()) {
+                Some(i) => Some(self.assets[i].clone()),
+                None => {
+                    incs.extend(pg);
+                    break;
+                }
+            };
+            incs.extend(pg);
+        }
         let mut seen_i: BTreeSet<usize> = BTreeSet::new();
         let mut strs = vec![];
         for e in &incs {
             let a = self.inc_asset(e).unwrap_or(99);
             let fresh = seen_i.insert(a);
             mon.check("C19", "at_most_one_incentive", fresh, || format!("two incentive entries for lp asset {a}"));
+            if let Some(o) = self.orig[3].get(&vec![a]) {
+                mon.check("C19", "incentive_entry_points_to_original_child", *o == e.incentive_address.as_str(), || {
+                    format!("incentive entry {a} names child {} but the creation of this key instantiated {}", e.incentive_address, o)
+                });
+            }
             let cfg: Result<white_whale_std::pool_network::incentive::Config, _> =
                 self.app.wrap().query_wasm_smart(&e.incentive_address, &white_whale_std::pool_network::incentive::QueryMsg::Config {});
             let serial = self.inc_serial.get(e.incentive_address.as_str()).map(|s| s.to_string()).unwrap_or("?".into());
             let ok = match &cfg {
-                Ok(c) => a < N && c.lp_asset == self.assets[a] && c.factory_address == self.ifac,
+                Ok(c) => a < NT && c.lp_asset == self.assets[a] && c.factory_address == self.ifac,
                 Err(_) => false,
             };
             mon.check("C19", "incentive_entry_eq_child_report", ok, || format!("incentive entry {:?} != incentive's own config {:?}", e, cfg));
@@ -656,9 +965,10 @@ impl World {
         mon.check("C19", "incentives_listing_matches_history", seen_i == self.live_incs, || {
             format!("listed incentives {:?} != created {:?}", seen_i, self.live_incs)
         });
-        for i in 0..N {
+        for i in 0..NU {
+            // (an address spelling of a token names the token's entry)
             let got: Option<Addr> = self.app.wrap().query_wasm_smart(&self.ifac, &ifac::QueryMsg::Incentive { lp_asset: self.assets[i].clone() }).unwrap();
-            let listed = incs.iter().find(|e| self.inc_asset(e) == Some(i)).map(|e| e.incentive_address.clone());
+            let listed = incs.iter().find(|e| self.inc_asset(e) == Some(base(i))).map(|e| e.incentive_address.clone());
             mon.check("C19", "incentive_lookup_agrees_with_listing", got == listed, || format!("Incentive[{i}] = {:?} but listing has {:?}", got, listed));
         }
         out += &format!(" incs={}", if strs.is_empty() { "-".into() } else { strs.join(";") });
@@ -682,6 +992,13 @@ impl World {
             .collect();
         out += &format!(" routes={}", if strs.is_empty() { "-".into() } else { strs.join(";") });
         let _ = registered_pair_addrs;
+        // ---- contract instances per child code (pair, trio, vault, incentive, cw20), from the chain's table
+        let k = self.counts();
+        out += &format!(" kids={}", k.iter().map(|x| x.to_string()).collect::<Vec<_>>().join("."));
+        // registry sizes this observation was made at, relative to the factories' page sizes
+        for (kind, n) in [pairs.len(), trios.len(), vaults.len(), incs.len()].into_iter().enumerate() {
+            mon.stat(&format!("obs_with_{}_size_{}", KIND[kind], size_bucket(n, self.lims[kind])));
+        }
         out
     }
 
@@ -721,8 +1038,22 @@ impl World {
         }
     }
 
+    /// the whole `Pairs` listing (pages of the maximum size, to the end)
+    fn all_pairs(&self) -> Vec<PairInfo> {
+        let mut pairs: Vec<PairInfo> = vec![];
+        let mut cur = None;
+        for _ in 0..64 {
+            let pg = self.q_pairs(cur.clone(), Some(self.lims[0].1 as u32));
+            if pg.is_empty() {
+                break;
+            }
+            cur = Some(pg.last().unwrap().asset_infos.clone());
+            pairs.extend(pg);
+        }
+        pairs
+    }
     fn registered_pair_addrs(&self) -> BTreeSet<String> {
-        self.q_pairs(None, Some(30)).into_iter().map(|e| e.contract_addr).collect()
+        self.all_pairs().into_iter().map(|e| e.contract_addr).collect()
     }
 
     fn stored_route_keys(&self) -> Vec<String> {
@@ -744,7 +1075,7 @@ impl World {
         let first = hops.first().map(|h| h.0).unwrap_or(0);
         // amount: 10^decimals of the offered asset as recorded by some registered pair, else 10^6
         let dec = self
-            .q_pairs(None, Some(30))
+            .all_pairs()
             .iter()
             .find_map(|e| e.asset_infos.iter().position(|a| *a == self.assets[first]).map(|k| e.asset_decimals[k]))
             .unwrap_or(6);
@@ -795,6 +1126,13 @@ pub struct Registry {
     queue: VecDeque<String>,
     case_kind: u64,
     ncase: u64,
+    /// keys a `GROW` placeholder has already tried in this case (a vault creation may fail for good)
+    grow_tried: BTreeSet<(usize, Vec<usize>)>,
+    /// the entry the last `RMPOS` placeholder removed: (kind, sorted key, creation parameter)
+    last_removed: Option<(usize, Vec<usize>, String)>,
+    /// where this run starts in the rotation of (registry kind, size class) of the grow-and-duplicate
+    /// scenario (drawn once per run, so that shards of a few dozen cases together cover every combination)
+    rot: Option<u64>,
 }
 
 fn show<T>(o: &Outcome<T>) -> &'static str {
@@ -811,9 +1149,6 @@ fn lim_of(s: &str) -> Option<Option<u32>> {
     } else {
         s.parse::<u32>().ok().map(Some)
     }
-}
-fn eff_limit(l: Option<u32>) -> usize {
-    (l.map(|x| x as usize).unwrap_or(DEFAULT_LIMIT)).min(MAX_LIMIT)
 }
 fn show_sets(pg: &[Vec<usize>]) -> String {
     if pg.is_empty() {
@@ -848,11 +1183,12 @@ impl Registry {
             mon.stat("pagination_precondition_nogap_false");
             return;
         }
-        let limits: Vec<Option<u32>> = std::iter::once(None).chain((1..=32).map(Some)).chain([Some(100), Some(u32::MAX)]).collect();
+        let (dflt, max) = w.lims[kind];
+        let limits: Vec<Option<u32>> = std::iter::once(None).chain((1..=(max as u32 + 2)).map(Some)).chain([Some(100), Some(u32::MAX)]).collect();
         for l in limits {
             let pages = w.iterate_pages(kind, l, n + 3);
             let cat: Vec<Vec<usize>> = pages.iter().flatten().cloned().collect();
-            let e = eff_limit(l);
+            let e = w.eff_limit(kind, l);
             let sizes_ok = pages.iter().enumerate().all(|(i, pg)| if i + 1 < pages.len() { pg.len() == e } else { pg.len() <= e && !pg.is_empty() });
             mon.check("C19", &format!("{name}_pagination_exactly_once"), cat == full && sizes_ok, || {
                 format!("{name} limit {:?}: pages {:?} vs full listing {:?}", l, pages, full)
@@ -862,34 +1198,66 @@ impl Registry {
         mon.check("C19", &format!("{name}_limit_zero_empty"), zero.is_empty(), || format!("{name} limit 0 returned {:?}", zero));
         // every registered entry as cursor (in every argument order), limits 1, 3, 30, default
         for (pos, e) in full.iter().enumerate() {
-            let perms: Vec<Vec<usize>> = match e.len() {
-                2 => vec![vec![e[0], e[1]], vec![e[1], e[0]]],
-                3 => vec![
-                    vec![e[0], e[1], e[2]],
-                    vec![e[0], e[2], e[1]],
-                    vec![e[1], e[0], e[2]],
-                    vec![e[1], e[2], e[0]],
-                    vec![e[2], e[0], e[1]],
-                    vec![e[2], e[1], e[0]],
-                ],
-                _ => vec![e.clone()],
-            };
+            // (the vault factory keys by the address string: there a spelling is a key of its own)
+            let perms: Vec<Vec<usize>> = if kind == 2 { vec![e.clone()] } else { spellings(e) };
             for c in perms {
-                for l in [Some(1), Some(3), Some(30), None] {
+                for l in [Some(1), Some(3), Some(max as u32), None] {
                     let pg = w.one_page(kind, &Some(c.clone()), &None, l);
-                    let want: Vec<Vec<usize>> = full.iter().skip(pos + 1).take(eff_limit(l)).cloned().collect();
+                    let want: Vec<Vec<usize>> = full.iter().skip(pos + 1).take(w.eff_limit(kind, l)).cloned().collect();
                     mon.check("C19", &format!("{name}_page_after_cursor"), pg == want, || {
                         format!("{name} start_after {:?} limit {:?}: got {:?}, want {:?}", c, l, pg, want)
                     });
                 }
             }
         }
-        mon.stat(&format!("sweep_{name}_n_{}", if n == 0 { "0".into() } else if n <= 10 { "1-10".to_string() } else if n <= 30 { "11-30".into() } else { ">30".to_string() }));
+        mon.stat(&format!("sweep_{name}_size_{}", size_bucket(n, (dflt, max))));
+    }
+
+    /// what a create op may do to the chain's contract table, whatever the registry: a successful create
+    /// instantiates exactly one child (and its LP token), a create naming a registered key none at all;
+    /// the ghost remembers the child a fresh key got. `pre` = (instance counts, position labels of the key
+    /// in the listing, registry size) before the op.
+    fn after_create(w: &mut World, kind: usize, set: &Vec<usize>, was_live: bool, pre: &([usize; 5], Vec<&'static str>, usize), ok: bool, mon: &mut Monitor) {
+        let (before, pos, size_before) = pre;
+        let after = w.counts();
+        let kn = KNAME[kind];
+        if ok {
+            let mut want = *before;
+            want[kind] += 1;
+            if kind < 3 {
+                want[4] += 1; // the child's LP token (cw20: `token_factory_lp` is false)
+            }
+            mon.check("C19", "create_instantiates_exactly_one_child", after == want, || {
+                format!("successful create_{kn} {:?}: contract instances [pair,trio,vault,incentive,cw20] {:?} -> {:?}", set, before, after)
+            });
+        }
+        if was_live {
+            mon.check("C19", &format!("duplicate_{kn}_no_new_child"), after == *before, || {
+                format!("create_{kn} {:?} names a registered key; contract instances [pair,trio,vault,incentive,cw20] {:?} -> {:?}", set, before, after)
+            });
+            let by_key = w.children_by_key(kind);
+            mon.check("C19", &format!("{kn}_children_match_creations"), by_key == w.born[kind], || {
+                format!("{kn} contracts per reported key {:?} != creations of unregistered keys {:?}", by_key, w.born[kind])
+            });
+            for l in pos {
+                mon.stat(&format!("dup_{kn}_attempt_at_{l}"));
+            }
+            mon.stat(&format!("dup_{kn}_attempt_size_{}", size_bucket(*size_before, w.lims[kind])));
+        } else if ok {
+            if let Some(a) = w.newest(kind) {
+                w.orig[kind].insert(set.clone(), a);
+            }
+            *w.born[kind].entry(set.clone()).or_insert(0) += 1;
+        }
+    }
+    fn before_create(w: &mut World, kind: usize, set: &Vec<usize>, was_live: bool) -> ([usize; 5], Vec<&'static str>, usize) {
+        (w.counts(), if was_live { w.position_labels(kind, set) } else { vec![] }, w.live_len(kind))
     }
 
     fn run_op(&mut self, ws: &[&str], mon: &mut Monitor) -> Option<String> {
         let w = self.w.as_mut()?;
         let owner = w.owner.clone();
+        let c0 = w.counts();
         let pool_fees = p::PoolFee { protocol_fee: fee(1), swap_fee: fee(2), burn_fee: fee(0) };
         let trio_fees = t::PoolFee { protocol_fee: fee(1), swap_fee: fee(2), burn_fee: fee(0) };
         let outcome: &'static str = match ws[0] {
@@ -914,18 +1282,24 @@ impl Registry {
                 let was_live = w.live_pairs.contains(&set);
                 let fac = w.fac.clone();
                 let msg = f::ExecuteMsg::CreatePair { asset_infos: w.arr2(ix[0], ix[1]), pool_fees, pair_type: pt, token_factory_lp: false };
+                let pre = Self::before_create(w, 0, &set, was_live);
                 let o = guarded(|| w.app.execute_contract(owner, fac, &msg, &[]));
+                Self::after_create(w, 0, &set, was_live, &pre, matches!(o, Outcome::Ok(_)), mon);
                 if was_live {
                     mon.check("C19", "duplicate_pair_rejected", !matches!(o, Outcome::Ok(_)), || {
                         format!("create_pair {:?} succeeded while the unordered set {:?} is registered", ix, set)
                     });
                     mon.stat("dup_pair_attempt");
-                    if ix != w.idx_list(&w.q_pairs(None, Some(30)).iter().find(|e| canon(&w.idx_list(&e.asset_infos)) == set).map(|e| e.asset_infos.to_vec()).unwrap_or_default()) {
+                    if ix.iter().any(|i| *i >= NT) {
+                        mon.stat("dup_pair_attempt_address_spelling");
+                    }
+                    if ix != w.idx_list(&w.all_pairs().iter().find(|e| canon(&w.idx_list(&e.asset_infos)) == set).map(|e| e.asset_infos.to_vec()).unwrap_or_default()) {
                         mon.stat("dup_pair_attempt_other_order");
                     }
                 } else if let Some(prev) = w.made_pairs.get(&set) {
-                    // removed earlier; same parameters as the creation that succeeded
-                    if prev == ws[3] {
+                    // removed earlier; same parameters as the creation that succeeded (and every asset named by
+                    // an address a contract answers at)
+                    if prev == ws[3] && ix.iter().all(|i| *i < NT) {
                         mon.check("C19", "removed_pair_recreatable", matches!(o, Outcome::Ok(_)), || {
                             format!("re-create of removed pair {:?} ({}) failed: {}", ix, ws[3], show(&o))
                         });
@@ -935,18 +1309,6 @@ impl Registry {
                 if let Outcome::Ok(_) = &o {
                     w.live_pairs.insert(set.clone());
                     w.made_pairs.insert(set, ws[3].to_string());
-                    if let Ok(e) = w.app.wrap().query_wasm_smart::<PairInfo>(&w.fac, &f::QueryMsg::Pair { asset_infos: w.arr2(ix[0], ix[1]) }) {
-                        if !w.pair_serial.contains_key(&e.contract_addr) {
-                            let s = w.pair_serial.len();
-                            w.pair_serial.insert(e.contract_addr.clone(), s);
-                            // the LP token id is taken from the child's own report
-                            if let Ok(c) = w.app.wrap().query_wasm_smart::<PairInfo>(&e.contract_addr, &p::QueryMsg::Pair {}) {
-                                if let AssetInfo::Token { contract_addr } = c.liquidity_token {
-                                    w.lp_ids.insert(contract_addr, format!("p{s}"));
-                                }
-                            }
-                        }
-                    }
                     mon.stat(&format!("pair_created_{}", if ws[3] == "cp" { "cp" } else { "ss" }));
                     // engine convention (mirrored by the model): a StableSwap pair gets its liquidity in the
                     // creating op, because a simulation on an empty StableSwap pool errs or not depending on the amount
@@ -970,14 +1332,19 @@ impl Registry {
                 let was_live = w.live_trios.contains(&set);
                 let fac = w.fac.clone();
                 let msg = f::ExecuteMsg::CreateTrio { asset_infos: w.arr3(ix[0], ix[1], ix[2]), pool_fees: trio_fees, amp_factor: amp, token_factory_lp: false };
+                let pre = Self::before_create(w, 1, &set, was_live);
                 let o = guarded(|| w.app.execute_contract(owner, fac, &msg, &[]));
+                Self::after_create(w, 1, &set, was_live, &pre, matches!(o, Outcome::Ok(_)), mon);
                 if was_live {
                     mon.check("C19", "duplicate_trio_rejected", !matches!(o, Outcome::Ok(_)), || {
                         format!("create_trio {:?} succeeded while the unordered set {:?} is registered", ix, set)
                     });
                     mon.stat("dup_trio_attempt");
+                    if ix.iter().any(|i| *i >= NT) {
+                        mon.stat("dup_trio_attempt_address_spelling");
+                    }
                 } else if let Some(prev) = w.made_trios.get(&set) {
-                    if prev == ws[4] {
+                    if prev == ws[4] && ix.iter().all(|i| *i < NT) {
                         mon.check("C19", "removed_trio_recreatable", matches!(o, Outcome::Ok(_)), || {
                             format!("re-create of removed trio {:?} failed: {}", ix, show(&o))
                         });
@@ -987,17 +1354,6 @@ impl Registry {
                 if let Outcome::Ok(_) = &o {
                     w.live_trios.insert(set.clone());
                     w.made_trios.insert(set, ws[4].to_string());
-                    if let Ok(e) = w.app.wrap().query_wasm_smart::<TrioInfo>(&w.fac, &f::QueryMsg::Trio { asset_infos: w.arr3(ix[0], ix[1], ix[2]) }) {
-                        if !w.trio_serial.contains_key(&e.contract_addr) {
-                            let s = w.trio_serial.len();
-                            w.trio_serial.insert(e.contract_addr.clone(), s);
-                            if let Ok(c) = w.app.wrap().query_wasm_smart::<TrioInfo>(&e.contract_addr, &t::QueryMsg::Trio {}) {
-                                if let AssetInfo::Token { contract_addr } = c.liquidity_token {
-                                    w.lp_ids.insert(contract_addr, format!("t{s}"));
-                                }
-                            }
-                        }
-                    }
                     mon.stat("trio_created");
                 }
                 show(&o)
@@ -1019,6 +1375,10 @@ impl Registry {
                 if let Outcome::Ok(_) = &o {
                     mon.check("C19", "remove_only_registered", w.live_pairs.contains(&set), || format!("remove_pair {:?} succeeded but the set was not registered", ix));
                     w.live_pairs.remove(&set);
+                    w.orig[0].remove(&set);
+                    if ix.iter().any(|i| *i >= NT) {
+                        mon.stat("pair_removed_by_address_spelling");
+                    }
                     let gone = w.app.wrap().query_wasm_smart::<PairInfo>(&w.fac, &f::QueryMsg::Pair { asset_infos: w.arr2(ix[1], ix[0]) }).is_err();
                     mon.check("C19", "removed_pair_absent", gone, || format!("pair {:?} still found after remove", ix));
                     mon.stat("pair_removed");
@@ -1040,6 +1400,10 @@ impl Registry {
                 if let Outcome::Ok(_) = &o {
                     mon.check("C19", "remove_only_registered", w.live_trios.contains(&set), || format!("remove_trio {:?} succeeded but the set was not registered", ix));
                     w.live_trios.remove(&set);
+                    w.orig[1].remove(&set);
+                    if ix.iter().any(|i| *i >= NT) {
+                        mon.stat("trio_removed_by_address_spelling");
+                    }
                     let gone = w.app.wrap().query_wasm_smart::<TrioInfo>(&w.fac, &f::QueryMsg::Trio { asset_infos: w.arr3(ix[2], ix[0], ix[1]) }).is_err();
                     mon.check("C19", "removed_trio_absent", gone, || format!("trio {:?} still found after remove", ix));
                     mon.stat("trio_removed");
@@ -1070,7 +1434,9 @@ impl Registry {
                     fees: VaultFee { protocol_fee: fee(1), flash_loan_fee: fee(1), burn_fee: fee(0) },
                     token_factory_lp: false,
                 };
+                let pre = Self::before_create(w, 2, &vec![i], was_live);
                 let o = guarded(|| w.app.execute_contract(owner, vfac, &msg, &[]));
+                Self::after_create(w, 2, &vec![i], was_live, &pre, matches!(o, Outcome::Ok(_)), mon);
                 if was_live {
                     mon.check("C19", "duplicate_vault_rejected", !matches!(o, Outcome::Ok(_)), || format!("create_vault {i} succeeded while registered"));
                     mon.stat("dup_vault_attempt");
@@ -1081,12 +1447,6 @@ impl Registry {
                 if let Outcome::Ok(_) = &o {
                     w.live_vaults.insert(i);
                     w.made_vaults.insert(i);
-                    if let Ok(Some(addr)) = w.app.wrap().query_wasm_smart::<Option<String>>(&w.vfac, &vf::QueryMsg::Vault { asset_info: w.assets[i].clone() }) {
-                        if !w.vault_serial.contains_key(&addr) {
-                            let s = w.vault_serial.len();
-                            w.vault_serial.insert(addr, s);
-                        }
-                    }
                     mon.stat("vault_created");
                 }
                 show(&o)
@@ -1102,6 +1462,7 @@ impl Registry {
                 if let Outcome::Ok(_) = &o {
                     mon.check("C19", "remove_only_registered", w.live_vaults.contains(&i), || format!("remove_vault {i} succeeded but was not registered"));
                     w.live_vaults.remove(&i);
+                    w.orig[2].remove(&vec![i]);
                     let got: Option<String> = w.app.wrap().query_wasm_smart(&w.vfac, &vf::QueryMsg::Vault { asset_info: w.assets[i].clone() }).unwrap();
                     mon.check("C19", "removed_vault_absent", got.is_none(), || format!("vault {i} still found after remove"));
                     mon.stat("vault_removed");
@@ -1113,22 +1474,21 @@ impl Registry {
                     return None;
                 }
                 let i = idxs(&ws[1..2])?[0];
-                let was_live = w.live_incs.contains(&i);
+                let was_live = w.live_incs.contains(&base(i));
                 let ifa = w.ifac.clone();
                 let msg = ifac::ExecuteMsg::CreateIncentive { lp_asset: w.assets[i].clone() };
+                let pre = Self::before_create(w, 3, &vec![base(i)], was_live);
                 let o = guarded(|| w.app.execute_contract(owner, ifa, &msg, &[]));
+                Self::after_create(w, 3, &vec![base(i)], was_live, &pre, matches!(o, Outcome::Ok(_)), mon);
                 if was_live {
                     mon.check("C19", "duplicate_incentive_rejected", !matches!(o, Outcome::Ok(_)), || format!("create_incentive {i} succeeded while registered"));
                     mon.stat("dup_incentive_attempt");
+                    if i >= NT {
+                        mon.stat("dup_incentive_attempt_address_spelling");
+                    }
                 }
                 if let Outcome::Ok(_) = &o {
-                    w.live_incs.insert(i);
-                    if let Ok(Some(addr)) = w.app.wrap().query_wasm_smart::<Option<Addr>>(&w.ifac, &ifac::QueryMsg::Incentive { lp_asset: w.assets[i].clone() }) {
-                        if !w.inc_serial.contains_key(addr.as_str()) {
-                            let s = w.inc_serial.len();
-                            w.inc_serial.insert(addr.to_string(), s);
-                        }
-                    }
+                    w.live_incs.insert(base(i));
                     mon.stat("incentive_created");
                 }
                 show(&o)
@@ -1312,7 +1672,7 @@ impl Registry {
                             };
                             k > bound
                         })
-                        .take(eff_limit(lim))
+                        .take(w.eff_limit(kind, lim))
                         .cloned()
                         .collect();
                     mon.check("C19", "page_is_entries_after_cursor", pg == want, || format!("page {:?}: got {:?} want {:?}", ws, pg, want));
@@ -1323,9 +1683,13 @@ impl Registry {
             _ => return None,
         };
         let body = w.build_body(mon);
+        let c1 = w.counts();
         if outcome != "ok" {
             let same = body == w.last_body;
             mon.check("C19", "failed_op_leaves_registries_unchanged", same, || format!("{:?} failed but observables changed", ws));
+            mon.check("C19", "failed_op_instantiates_nothing", c0 == c1, || format!("{:?} failed but contract instances went {:?} -> {:?}", ws, c0, c1));
+        } else if !ws[0].starts_with("create_") {
+            mon.check("C19", "only_create_instantiates", c0 == c1, || format!("{:?}: contract instances went {:?} -> {:?}", ws, c0, c1));
         }
         w.last_body = body.clone();
         mon.stat(&format!("{}_{}", ws[0], outcome));
@@ -1369,13 +1733,24 @@ impl Registry {
         *rng.pick(&[1u64, 100, 100, 85, 1_000_000, 1_000_001, 0])
     }
     fn lim(rng: &mut Rng) -> String {
-        match rng.below(12) {
+        let (d, m) = page_limits(0);
+        match rng.below(14) {
             0 => "none".into(),
             1 => "0".into(),
-            2 => "31".into(),
+            2 => (m + 1).to_string(),
             3 => "4294967295".into(),
-            4 => "30".into(),
-            _ => rng.range(1, 30).to_string(),
+            4 => m.to_string(),
+            5 => d.to_string(),
+            6 => (d + 1).to_string(),
+            _ => rng.range(1, m as u64).to_string(),
+        }
+    }
+    /// an asset for the one-entry-per-asset registries: the core half of the time, else anywhere
+    fn any_asset(rng: &mut Rng) -> usize {
+        if rng.chance(1, 2) {
+            rng.below(N as u64) as usize
+        } else {
+            rng.below(NU as u64) as usize
         }
     }
     fn dec(rng: &mut Rng) -> u8 {
@@ -1399,11 +1774,11 @@ impl Registry {
                 7 => format!("create_trio {} {} {} 100", s[0], s[1], s[0]),
                 8 => format!("remove_pair {} {}", s[0], s[1]),
                 9 => format!("remove_trio {} {} {}", s[0], s[1], s[2]),
-                10 => format!("create_vault {}", s[0]),
-                11 => format!("remove_vault {}", s[0]),
-                12 => format!("create_incentive {}", s[0]),
+                10 => format!("create_vault {}", Self::any_asset(rng)),
+                11 => format!("remove_vault {}", Self::any_asset(rng)),
+                12 => format!("create_incentive {}", Self::any_asset(rng)),
                 13 => {
-                    let i = rng.below(N as u64) as usize;
+                    let i = if rng.chance(1, 8) { rng.below(NT as u64) as usize } else { rng.below(N as u64) as usize };
                     format!("add_dec {} {}", i, if i < NN { NOMINAL[i] } else { 6 })
                 }
                 14 => format!("fund {} {}", s[0], s[1]),
@@ -1458,14 +1833,199 @@ impl Registry {
         }
     }
 
+    /// a create line for a key in a random (or the `sp`-th) order of its assets
+    /// the ways of naming a key of registry kind `k` (the vault factory keys by the address string, so an
+    /// address spelling is no name of a vault's key); `addr` = address spellings included
+    fn names(k: usize, set: &[usize], addr: bool) -> Vec<Vec<usize>> {
+        if k == 2 {
+            return vec![set.to_vec()];
+        }
+        spellings(set).into_iter().filter(|v| addr || v.iter().all(|i| *i < NT)).collect()
+    }
+    fn create_line(k: usize, set: &[usize], sp: Option<usize>, param: &str, rng: &mut Rng) -> String {
+        let perms = Self::names(k, set, true);
+        Self::create_named(k, &perms[sp.unwrap_or(rng.below(perms.len() as u64) as usize) % perms.len()], param)
+    }
+    fn create_named(k: usize, pm: &[usize], param: &str) -> String {
+        match k {
+            0 => format!("create_pair {} {} {}", pm[0], pm[1], param),
+            1 => format!("create_trio {} {} {} {}", pm[0], pm[1], pm[2], param),
+            2 => format!("create_vault {}", pm[0]),
+            _ => format!("create_incentive {}", pm[0]),
+        }
+    }
+    /// index into a listing of `n` entries named by a position word (page sizes of registry kind `k`)
+    fn pos_index(k: usize, pos: &str, n: usize, rng: &mut Rng) -> Option<usize> {
+        let (d, m) = page_limits(k);
+        if n == 0 {
+            return None;
+        }
+        let i = match pos {
+            "first" => 0,
+            "dl" => d.checked_sub(1)?,
+            "dn" => d,
+            "ml" => m.checked_sub(1)?,
+            "mn" => m,
+            "last" => n - 1,
+            _ => rng.below(n as u64) as usize,
+        };
+        if i < n {
+            Some(i)
+        } else {
+            None
+        }
+    }
+
+    /// turns a queued line into an op line. Placeholders look at the real registries as they are now;
+    /// `None` = nothing to do for this placeholder, take the next queued line.
+    fn resolve(&mut self, l: &str, rng: &mut Rng) -> Option<String> {
+        let ws: Vec<&str> = l.split_whitespace().collect();
+        match ws[0] {
+            "SOUP" => Some(self.soup_line(rng)),
+            "SOUPG" => {
+                let k = rng.below(4) as usize;
+                let pos = *rng.pick(&["first", "dl", "dn", "ml", "mn", "last", "rnd", "rnd", "rnd", "addr"]);
+                let ph = match rng.below(10) {
+                    0..=3 => format!("DUP {k} {pos} r"),
+                    4 => format!("RMPOS {k} {pos}"),
+                    5 => "RECREATE".to_string(),
+                    6 => "DUPLAST".to_string(),
+                    _ => "SOUP".to_string(),
+                };
+                match self.resolve(&ph, rng) {
+                    Some(x) => Some(x),
+                    None => Some(self.soup_line(rng)),
+                }
+            }
+            "GROW" => {
+                let k: usize = ws[1].parse().ok()?;
+                let target: usize = ws[2].parse().ok()?;
+                let w = self.w.as_ref()?;
+                if w.live_len(k) >= target {
+                    return None;
+                }
+                let mut cands: Vec<Vec<usize>> = vec![];
+                match k {
+                    0 => {
+                        for i in 0..N {
+                            for j in (i + 1)..N {
+                                cands.push(vec![i, j]);
+                            }
+                        }
+                    }
+                    1 => {
+                        for i in 0..N {
+                            for j in (i + 1)..N {
+                                for z in (j + 1)..N {
+                                    cands.push(vec![i, j, z]);
+                                }
+                            }
+                        }
+                    }
+                    _ => cands = (0..NT).map(|i| vec![i]).collect(),
+                }
+                cands.retain(|c| !w.live_has(k, c) && !self.grow_tried.contains(&(k, c.clone())));
+                if cands.is_empty() {
+                    return None;
+                }
+                let c = rng.pick(&cands).clone();
+                self.grow_tried.insert((k, c.clone()));
+                self.queue.push_front(l.to_string());
+                let param = match k {
+                    0 => (if rng.chance(3, 4) { "cp" } else { "ss100" }).to_string(),
+                    1 => "100".to_string(),
+                    _ => String::new(),
+                };
+                Some(Self::create_line(k, &c, None, &param, rng))
+            }
+            "DUP" | "RMPOS" | "PAGEPOS" => {
+                let k: usize = ws[1].parse().ok()?;
+                let w = self.w.as_ref()?;
+                let full = w.full(k);
+                // position `addr` = an entry one of whose assets has an address spelling
+                let i = if ws[2] == "addr" {
+                    let c: Vec<usize> = (0..full.len()).filter(|i| full[*i].iter().any(|x| ALIAS_OF.contains(x))).collect();
+                    if c.is_empty() {
+                        return None;
+                    }
+                    *rng.pick(&c)
+                } else {
+                    Self::pos_index(k, ws[2], full.len(), rng)?
+                };
+                let e = full[i].clone();
+                if e.iter().any(|x| *x >= NT) {
+                    return None;
+                }
+                match ws[0] {
+                    "DUP" => {
+                        // the other parameters vary freely: a registered key is refused whatever they are
+                        let mut param = || match k {
+                            0 => Self::ptype(rng),
+                            1 => Self::amp(rng).to_string(),
+                            _ => String::new(),
+                        };
+                        if ws[3] == "all" {
+                            // every name of the key, one line each (a refused create changes nothing, so the
+                            // position stays what it is)
+                            let mut lines: Vec<String> = Self::names(k, &e, true).iter().map(|pm| Self::create_named(k, pm, &param())).collect();
+                            let first = lines.remove(0);
+                            for l in lines.into_iter().rev() {
+                                self.queue.push_front(l);
+                            }
+                            return Some(first);
+                        }
+                        let sp = ws[3].parse::<usize>().ok();
+                        let pr = param();
+                        Some(Self::create_line(k, &e, sp, &pr, rng))
+                    }
+                    "RMPOS" => {
+                        let set = canon(&e);
+                        let param = match k {
+                            0 => w.made_pairs.get(&set).cloned().unwrap_or("cp".into()),
+                            1 => w.made_trios.get(&set).cloned().unwrap_or("100".into()),
+                            2 => String::new(),
+                            _ => return None, // incentives cannot be removed
+                        };
+                        let line = Self::create_line(k, &e, None, "", rng);
+                        let args: Vec<&str> = line.split_whitespace().skip(1).take(e.len()).collect();
+                        self.last_removed = Some((k, set, param));
+                        Some(format!("remove_{} {}", KNAME[k], args.join(" ")))
+                    }
+                    _ => {
+                        let line = Self::create_line(k, &e, None, "", rng);
+                        let args: Vec<&str> = line.split_whitespace().skip(1).take(e.len()).collect();
+                        Some(format!("page {} {} {}", KIND[k], ws[3], args.join(".")))
+                    }
+                }
+            }
+            "RECREATE" => {
+                // (creation needs every asset named by an address a contract answers at)
+                let (k, set, param) = self.last_removed.clone()?;
+                let plain = Self::names(k, &set, false);
+                let pm: Vec<usize> = rng.pick(&plain[..]).clone();
+                Some(Self::create_named(k, &pm, &param))
+            }
+            "DUPLAST" => {
+                let (k, set, _) = self.last_removed.clone()?;
+                let param = match k {
+                    0 => Self::ptype(rng),
+                    1 => Self::amp(rng).to_string(),
+                    _ => String::new(),
+                };
+                Some(Self::create_line(k, &set, None, &param, rng))
+            }
+            _ => Some(l.to_string()),
+        }
+    }
+
     /// fills the per-case op queue (after the init line)
     fn plan(&mut self, rng: &mut Rng) {
         let q = &mut self.queue;
-        let kind = self.case_kind % 4;
+        let kind = self.case_kind % 6;
         // native decimals: mostly all registered up front, sometimes some missing / added late
         let mut late: Vec<usize> = vec![];
         for i in 0..NN {
-            if rng.chance(9, 10) {
+            if kind >= 4 || rng.chance(9, 10) {
                 q.push_back(format!("add_dec {} {}", i, if kind >= 2 { NOMINAL[i] } else { Self::dec(rng) }));
             } else {
                 late.push(i);
@@ -1528,22 +2088,34 @@ impl Registry {
             }
             1 => {
                 // many entries, then pagination with every limit / cursor
-                let np = rng.range(5, 150);
+                // each registry is either taken well past its page sizes or kept small (all four large at once
+                // makes every observation expensive without reaching anything new)
+                let np = if rng.chance(1, 2) { rng.range(40, 110) } else { rng.range(3, 20) };
                 for _ in 0..np {
                     let s = Self::distinct(rng, 2);
                     q.push_back(format!("create_pair {} {} {}", s[0], s[1], if rng.chance(2, 3) { "cp".to_string() } else { "ss100".to_string() }));
                 }
-                let nt = rng.range(3, 90);
+                let nt = if rng.chance(1, 2) { rng.range(30, 70) } else { rng.range(2, 12) };
                 for _ in 0..nt {
                     let s = Self::distinct(rng, 3);
                     q.push_back(format!("create_trio {} {} {} 100", s[0], s[1], s[2]));
                 }
-                for i in 0..N {
-                    if rng.chance(4, 5) {
+                // one entry per asset: the whole universe, in an order unrelated to the keys' order
+                let mut order: Vec<usize> = (0..NT).collect();
+                for i in (1..order.len()).rev() {
+                    order.swap(i, rng.below(i as u64 + 1) as usize);
+                }
+                let (pv, pi) = (rng.range(1, 5), rng.range(1, 5));
+                for i in order {
+                    if rng.chance(pv, 5) {
                         q.push_back(format!("create_vault {i}"));
                     }
-                    if rng.chance(4, 5) {
+                    if rng.chance(pi, 5) {
                         q.push_back(format!("create_incentive {i}"));
+                    }
+                    if rng.chance(1, 6) {
+                        q.push_back(format!("create_vault {}", rng.below(NT as u64)));
+                        q.push_back(format!("create_incentive {}", rng.below(NT as u64)));
                     }
                 }
                 for _ in 0..3 {
@@ -1569,7 +2141,7 @@ impl Registry {
                         }
                         2 => {
                             if rng.chance(1, 2) {
-                                q.push_back(format!("page vaults {} {}", Self::lim(rng), rng.below(N as u64)));
+                                q.push_back(format!("page vaults {} {}", Self::lim(rng), rng.below(NT as u64)));
                             } else {
                                 // arbitrary byte cursors around a key: prefix, key+0, key+1, key+2, empty
                                 let base: Vec<u8> = match rng.below(3) {
@@ -1588,7 +2160,7 @@ impl Registry {
                                 q.push_back(format!("page vaults {} x{}", Self::lim(rng), hex(&c)));
                             }
                         }
-                        _ => q.push_back(format!("page incs {} {}", Self::lim(rng), rng.below(N as u64))),
+                        _ => q.push_back(format!("page incs {} {}", Self::lim(rng), rng.below(NT as u64))),
                     }
                 }
             }
@@ -1649,11 +2221,77 @@ impl Registry {
                 q.push_back(format!("add_routes 6:{}:{} 7:{}:{}", a, hs(&hops[..1]), a, hs(&hops)));
                 q.push_back(format!("remove_routes 7:{}", a));
             }
-            _ => {
+            3 => {
                 // random soup: lines are generated one at a time in `next_op`, looking at the ghost history
                 let n = rng.range(25, 60);
                 for _ in 0..n {
                     q.push_back("SOUP".to_string());
+                }
+            }
+            4 => {
+                // ONE registry grown past the default (odd rounds: past the maximum) page size, in an order
+                // unrelated to the key order; then duplicates of the keys at every position of the listing
+                // (first, last of the default page, first after it, last of a maximum page, first after it,
+                // last, anywhere) in every spelling of the key; removal at the page boundary, the neighbours
+                // again, re-creation, the re-created key again. Placeholders are resolved against the real
+                // listing when their turn comes (`resolve`).
+                let rot = *self.rot.get_or_insert_with(|| rng.below(8));
+                let sub = self.case_kind / 6 + rot;
+                let k = (sub % 4) as usize;
+                let (d, m) = page_limits(k);
+                let target = if (sub / 4) % 2 == 1 { m as u64 + rng.range(1, 5) } else { d as u64 + rng.range(1, 4) };
+                q.push_back(format!("GROW {k} {target}"));
+                q.push_back(format!("pages {} none", KIND[k]));
+                q.push_back(format!("pages {} {}", KIND[k], m));
+                for pos in ["first", "dl", "dn", "ml", "mn", "last", "rnd", "addr"] {
+                    if k == 1 && !["dn", "mn", "last", "addr"].contains(&pos) {
+                        // (a trio has 6 to 12 names: all of them at the boundaries, two elsewhere)
+                        q.push_back(format!("DUP {k} {pos} r"));
+                        q.push_back(format!("DUP {k} {pos} r"));
+                    } else {
+                        q.push_back(format!("DUP {k} {pos} all"));
+                    }
+                }
+                if k < 3 {
+                    for pos in ["dn", "last", "first", "ml", "addr"] {
+                        q.push_back(format!("RMPOS {k} {pos}"));
+                        q.push_back(format!("DUP {k} dl r"));
+                        q.push_back(format!("DUP {k} dn r"));
+                        q.push_back("RECREATE".to_string());
+                        q.push_back("DUPLAST".to_string());
+                        q.push_back("DUPLAST".to_string());
+                    }
+                }
+                q.push_back(format!("pages {} {}", KIND[k], Self::lim(rng)));
+                q.push_back(format!("PAGEPOS {k} dl none"));
+                q.push_back(format!("PAGEPOS {k} ml {m}"));
+                q.push_back(format!("PAGEPOS {k} dn 1"));
+                q.push_back(format!("PAGEPOS {k} rnd {}", Self::lim(rng)));
+            }
+            _ => {
+                // random soup on grown registries: each registry first grows to a random size class (none, a
+                // few, past the default page, past the maximum page), then random lines, biased towards
+                // creating registered keys again and removing / re-creating entries anywhere in the listing
+                let mut big = 0;
+                for k in 0..4usize {
+                    let (d, m) = page_limits(k);
+                    let target = match rng.below(4) {
+                        0 => 0,
+                        1 => rng.range(1, d as u64),
+                        2 => d as u64 + rng.range(1, 3),
+                        _ if big < 2 => {
+                            big += 1;
+                            m as u64 + rng.range(1, 3)
+                        }
+                        _ => d as u64 + rng.range(1, 3),
+                    };
+                    if target > 0 {
+                        q.push_back(format!("GROW {k} {target}"));
+                    }
+                }
+                let n = rng.range(25, 45);
+                for _ in 0..n {
+                    q.push_back("SOUPG".to_string());
                 }
             }
         }
@@ -1693,12 +2331,16 @@ impl Engine for Registry {
             self.case_kind = self.ncase;
             self.ncase += 1;
             self.queue.clear();
+            self.grow_tried.clear();
+            self.last_removed = None;
             self.plan(rng);
             return Some(build_world().init_line());
         }
-        match self.queue.pop_front() {
-            Some(l) if l == "SOUP" => Some(self.soup_line(rng)),
-            other => other,
+        loop {
+            let l = self.queue.pop_front()?;
+            if let Some(line) = self.resolve(&l, rng) {
+                return Some(line);
+            }
         }
     }
 }
